@@ -15,6 +15,8 @@ from argparse import (
     ArgumentTypeError,
     HelpFormatter,
 )
+import collections.abc
+import types as _builtin_types
 from ast import literal_eval
 from inspect import Parameter, getmembers, isfunction, signature
 from shutil import get_terminal_size
@@ -30,14 +32,23 @@ from typing import (
     Set,
     Type,
     TypeVar,
+    Union,
     cast,
+    get_args,
+    get_origin,
+    get_type_hints,
     overload,
 )
-from typing_extensions import Unpack  # noqa: TCH002
+from typing_extensions import (
+    ParamSpecArgs,
+    ParamSpecKwargs,
+    Unpack,  # noqa: TCH002
+)
 
 from ..exceptions import HelpRequested, ParserError, SubParsersNotInitialized
 from ..internals.constants import CMD
 from ..internals.helpers import get_first_doc_line, resolve_dotted_path
+from ..internals import types as _types
 from ..internals.types import (
     AddSubCommandParserKwargs,
     AnyCoroutineFunc,
@@ -242,7 +253,7 @@ class ControlParser(ArgumentParser):
         subparser_kwargs.setdefault("description", subparser_kwargs["help"])
         subparser = self._commands.add_parser(**subparser_kwargs)
         if prop.fset is not None:
-            _, param = signature(prop.fset).parameters.values()
+            _, param = _get_parameters(prop.fset)
             setter_arg_help = (
                 f"If provided: {get_first_doc_line(prop.fset)} "
                 f"If omitted: {getter_help}"
@@ -403,7 +414,7 @@ class ControlParser(ArgumentParser):
             omit (optional):
                 Names of function parameters not to add as parser arguments.
         """
-        for param in signature(function).parameters.values():
+        for param in _get_parameters(function):
             if param.name not in omit:
                 # TODO: Look into parsing docstrings properly to try and extract
                 #       argument help text. For now, the argument help just
@@ -447,6 +458,24 @@ def _get_arg_type_wrapper(cls: Type[Any]) -> Callable[[Any], Any]:
     return wrapper
 
 
+def _get_parameters(function: Callable[..., Any]) -> list[Parameter]:
+    """
+    Returns the parameters of `function` with evaluated annotations.
+
+    Postponed (string) annotations are resolved in the namespace of the
+    function's module plus that of the `internals.types` module. Those that
+    can not be resolved are left as they are.
+    """
+    try:
+        hints = get_type_hints(function, localns=vars(_types))
+    except Exception:  # noqa: BLE001
+        hints = {}
+    return [
+        param.replace(annotation=hints.get(param.name, param.annotation))
+        for param in signature(function).parameters.values()
+    ]
+
+
 def _get_type_from_annotation(annotation: Any) -> Callable[[Any], Any]:
     """
     Returns a type conversion function based on the `annotation` passed.
@@ -459,6 +488,21 @@ def _get_type_from_annotation(annotation: Any) -> Callable[[Any], Any]:
     `Iterable`- or args/kwargs-type annotations use `ast.literal_eval`.
     Others pass unchanged (but still wrapped with `_get_arg_type_wrapper`).
     """
+    if get_origin(annotation) is Union or isinstance(
+        annotation, getattr(_builtin_types, "UnionType", ())
+    ):
+        # Reduce `X | None` to `X`
+        not_none = [a for a in get_args(annotation) if a is not type(None)]
+        if len(not_none) == 1:
+            annotation = not_none[0]
+    if isinstance(annotation, str):
+        annotation = str  # unresolved; pass the argument through unchanged
+    if get_origin(annotation) is collections.abc.Callable:
+        annotation = resolve_dotted_path
+    if isinstance(annotation, (ParamSpecArgs, ParamSpecKwargs)) or get_origin(
+        annotation
+    ) in (collections.abc.Iterable, collections.abc.Mapping):
+        annotation = literal_eval
     if any(annotation is t for t in (AnyCoroutineFunc, EndCB, CancelCB)):
         annotation = resolve_dotted_path
     if any(
